@@ -4,7 +4,7 @@ from __future__ import annotations
 
 import math
 
-from .ops import LIB_GATES, n_user
+from .ops import LIB_GATES, csize, n_user
 
 GATE_1Q = ["I", "H", "X", "Y", "Z", "S", "Sadj", "T", "Tadj", "SX"]
 GATE_ROT = ["P", "Rx", "Ry", "Rz"]
@@ -144,8 +144,11 @@ class Builder(Client):
         r, w = self.rng, self.w
         c = w.pool["c"][cid]
         nu = n_user(c)
+        ncomp, nloss = csize(w, cid)
+        if ncomp >= self.cfg.get("max_components", 48):
+            return None
         kinds = ["ps", "ps", "loss", "barrier"]
-        if self.cfg.get("no_loss"):
+        if self.cfg.get("no_loss") or nloss >= self.cfg.get("max_loss", 6):
             kinds = ["ps", "ps", "barrier"]
         if nu >= 2:
             kinds += ["bs", "bs", "bs", "mode_swaps", "mode_swaps"]
@@ -163,7 +166,7 @@ class Builder(Client):
                 pass  # default second mode
             else:
                 o["m2"] = m2
-            if r.random() < 0.35 and not self.cfg.get("no_loss"):
+            if r.random() < 0.35 and "loss" in kinds:
                 o["loss"] = self.value("loss")
             if r.random() < 0.4:
                 o["conv"] = r.choice(["Rx", "H"])
@@ -171,7 +174,7 @@ class Builder(Client):
         if k == "ps":
             o = {"op": "ps", "c": cid, "m": r.randrange(nu),
                  "phi": self.value("phi")}
-            if r.random() < 0.3 and not self.cfg.get("no_loss"):
+            if r.random() < 0.3 and "loss" in kinds:
                 o["loss"] = self.value("loss")
             return o
         if k == "loss":
@@ -245,6 +248,11 @@ class Composer(Client):
                     return False
                 if herald_photons(p) + herald_photons(c) > cfg["max_herald_photons"]:
                     return False
+                pa, pb = csize(w, pid)
+                sa, sb = csize(w, cid)
+                if pa + sa > cfg.get("max_components", 48) or \
+                        pb + sb > cfg.get("max_loss", 6):
+                    return False
                 return w.meta["c"][cid].get("depth", 0) < cfg["max_depth"]
             subs = self.any_circuits(ok)
             if not cfg.get("use_shared", True):
@@ -279,7 +287,11 @@ class Composer(Client):
             return None
         a = self.pick(own)
         n = w.pool["c"][a].n_modes
-        bs = [b for b in own if w.pool["c"][b].n_modes == n]
+        bs = [b for b in own if w.pool["c"][b].n_modes == n
+              and csize(w, a)[0] + csize(w, b)[0] <= self.cfg.get("max_components", 48)
+              and csize(w, a)[1] + csize(w, b)[1] <= self.cfg.get("max_loss", 6)]
+        if not bs:
+            return None
         b = self.pick(bs)
         return {"op": "plus", "a": a, "b": b, "out": w.new_id("c")}
 
